@@ -84,6 +84,28 @@ func ParseSequenceSetWithDB(sequenceSet string, mailboxID int64, userDB *sql.DB)
 	return sequences
 }
 
+// ValidSequenceSet reports whether s has the form of an RFC 3501 sequence set:
+// comma-separated elements, each a message number or "*", or two of them
+// joined by ":". ParseSequenceSetWithDB skips what it cannot read; commands
+// that must tell a malformed set from one that addresses nothing check here.
+func ValidSequenceSet(s string) bool {
+	for _, part := range strings.Split(s, ",") {
+		bounds := strings.Split(part, ":")
+		if len(bounds) > 2 {
+			return false
+		}
+		for _, b := range bounds {
+			if b == "*" {
+				continue
+			}
+			if n, err := strconv.Atoi(b); err != nil || n < 1 {
+				return false
+			}
+		}
+	}
+	return true
+}
+
 // Contains checks if a slice contains a string
 func Contains(slice []string, item string) bool {
 	for _, s := range slice {
